@@ -5,9 +5,12 @@
 package path
 
 import (
+	"fmt"
 	"go/constant"
 	"go/token"
 	"go/types"
+	"sort"
+	"strings"
 
 	"golang.org/x/tools/go/ssa"
 
@@ -115,12 +118,64 @@ type Guard struct {
 	// incoming edge that sets it was resolved; the guards of that edge are listed
 	// as well and say what the flag stands for.
 	Threaded bool
+	// Synth: not a branch of the function but a fact obtained by threading: the value
+	// If.Cond (an If made up for the purpose, not attached to a block) has the truth
+	// value Idx says on every path to the target; Blk is the block it came from.
+	Synth bool
+	Blk   *ssa.BasicBlock
 }
 
 func Guards(fn *ssa.Function, target *ssa.BasicBlock) []Guard {
 	var out []Guard
 	seen := map[Guard]bool{}
+	seenSynth := map[string]bool{}
 	var collect func(target *ssa.BasicBlock, depth int)
+	// thread: the boolean value v is known to be `truth` on the paths considered; when v
+	// is a flag merged from several edges and exactly one edge can deliver that truth
+	// value, the paths came along that edge: its guards hold, and when the edge carries a
+	// computed value (the `b` of `a && b`) that value has the truth in question.
+	var thread func(v ssa.Value, truth bool, depth int) bool
+	thread = func(v ssa.Value, truth bool, depth int) bool {
+		if depth >= 5 {
+			return false
+		}
+		pb, pi, val, ok := flagEdge(v, truth)
+		if !ok {
+			return false
+		}
+		if pif := BlockIf(pb); pif != nil && len(pb.Succs) == 2 && pb.Succs[0] != pb.Succs[1] {
+			tg := Guard{If: pif, Idx: pi}
+			if !seen[tg] {
+				seen[tg] = true
+				out = append(out, tg)
+			}
+		}
+		if val != nil {
+			// strip negations so that Idx says which way the comparison goes
+			t := truth
+			vv := val
+			for {
+				if u, ok := vv.(*ssa.UnOp); ok && u.Op == token.NOT {
+					t = !t
+					vv = u.X
+					continue
+				}
+				break
+			}
+			idx := 1
+			if t {
+				idx = 0
+			}
+			key := fmt.Sprintf("%p/%d", vv, idx)
+			if !seenSynth[key] {
+				seenSynth[key] = true
+				threaded := thread(vv, t, depth+1)
+				out = append(out, Guard{If: &ssa.If{Cond: vv}, Idx: idx, Blk: pb, Synth: true, Threaded: threaded})
+			}
+		}
+		collect(pb, depth+1)
+		return true
+	}
 	collect = func(target *ssa.BasicBlock, depth int) {
 		for _, b := range fn.Blocks {
 			iff := BlockIf(b)
@@ -136,27 +191,10 @@ func Guards(fn *ssa.Function, target *ssa.BasicBlock) []Guard {
 					continue
 				}
 				seen[g] = true
-				if _, _, ok := flagSource(iff, idx == 0); ok && depth < 4 {
-					out = append(out, Guard{If: iff, Idx: idx, Threaded: true})
-				} else {
-					out = append(out, g)
-				}
-				// jump threading: the condition is a boolean flag merged from
-				// constants (found := false; ...; found = true; ...; if found).
-				// When exactly one incoming edge carries the value this edge
-				// needs, every path through the edge came along that incoming
-				// edge, so whatever guards it guards the target as well.
-				if depth < 4 {
-					if pb, pi, ok := flagSource(iff, idx == 0); ok {
-						if pif := BlockIf(pb); pif != nil && len(pb.Succs) == 2 && pb.Succs[0] != pb.Succs[1] {
-							tg := Guard{If: pif, Idx: pi}
-							if !seen[tg] {
-								seen[tg] = true
-								out = append(out, tg)
-							}
-						}
-						collect(pb, depth+1)
-					}
+				at := len(out)
+				out = append(out, g)
+				if thread(iff.Cond, idx == 0, depth) {
+					out[at].Threaded = true
 				}
 			}
 		}
@@ -165,12 +203,21 @@ func Guards(fn *ssa.Function, target *ssa.BasicBlock) []Guard {
 	return out
 }
 
-// flagSource: iff tests (through NOT) a phi of boolean constants (phis of such phis
-// included); when exactly one incoming edge carries the value that sends control
-// along the edge with the given truth, it returns that edge as (predecessor block,
-// index of the phi's block among the predecessor's successors).
-func flagSource(iff *ssa.If, truth bool) (*ssa.BasicBlock, int, bool) {
-	v := iff.Cond
+// Block is the block whose end the guard describes (for a guard obtained by
+// threading a computed flag value: the block the value was delivered from).
+func (g Guard) Block() *ssa.BasicBlock {
+	if g.Blk != nil {
+		return g.Blk
+	}
+	return g.If.Block()
+}
+
+// flagEdge: v (through NOT) is a phi - a boolean flag, or the value of `a && b` /
+// `a || b` used as a value - and exactly one incoming edge can deliver the given
+// truth value (a constant equal to it, or a computed value). It returns that edge as
+// (predecessor block, index of the phi's block among the predecessor's successors)
+// and the computed value the edge carries (nil for a constant).
+func flagEdge(v ssa.Value, truth bool) (*ssa.BasicBlock, int, ssa.Value, bool) {
 	for {
 		if u, ok := v.(*ssa.UnOp); ok && u.Op == token.NOT {
 			truth = !truth
@@ -181,48 +228,35 @@ func flagSource(iff *ssa.If, truth bool) (*ssa.BasicBlock, int, bool) {
 	}
 	phi, ok := v.(*ssa.Phi)
 	if !ok {
-		return nil, 0, false
+		return nil, 0, nil, false
 	}
-	type src struct {
-		pred, blk *ssa.BasicBlock
-	}
-	var match []src
-	opaque := false
-	seen := map[*ssa.Phi]bool{}
-	var walk func(p *ssa.Phi)
-	walk = func(p *ssa.Phi) {
-		if seen[p] {
-			return
-		}
-		seen[p] = true
-		for i, e := range p.Edges {
-			switch e := e.(type) {
-			case *ssa.Const:
-				if bv, ok := BoolConst(e); ok {
-					if bv == truth {
-						match = append(match, src{p.Block().Preds[i], p.Block()})
-					}
-				} else {
-					opaque = true
-				}
-			case *ssa.Phi:
-				walk(e)
-			default:
-				opaque = true
+	cand := -1
+	n := 0
+	for i, e := range phi.Edges {
+		if bv, isC := BoolConst(e); isC {
+			if bv == truth {
+				cand = i
+				n++
 			}
+			continue
+		}
+		cand = i
+		n++
+	}
+	if n != 1 {
+		return nil, 0, nil, false
+	}
+	pred := phi.Block().Preds[cand]
+	var val ssa.Value
+	if _, isC := BoolConst(phi.Edges[cand]); !isC {
+		val = phi.Edges[cand]
+	}
+	for i, sc := range pred.Succs {
+		if sc == phi.Block() {
+			return pred, i, val, true
 		}
 	}
-	walk(phi)
-	if opaque || len(match) != 1 {
-		return nil, 0, false
-	}
-	m := match[0]
-	for i, s := range m.pred.Succs {
-		if s == m.blk {
-			return m.pred, i, true
-		}
-	}
-	return nil, 0, false
+	return nil, 0, nil, false
 }
 
 // IntConst returns the integer value of a constant.
@@ -810,4 +844,93 @@ func Unspill(v ssa.Value) ssa.Value {
 		v = st.Val
 	}
 	return v
+}
+
+// CanReachThreaded reports whether block to is reachable after taking the edge
+// pred -> from without passing block stop, following only feasible successors where a
+// branch tests a boolean flag whose value is determined by the edges taken so far
+// (found := false; ...; found = true; break; ...; if found { continue }): a flag merged
+// from constants takes, on each path, the constant of the edge the path came along.
+func CanReachThreaded(pred, from, to, stop *ssa.BasicBlock) bool {
+	type state struct {
+		b   *ssa.BasicBlock
+		env string
+	}
+	seen := map[state]bool{}
+	envKey := func(env map[*ssa.Phi]bool) string {
+		var ks []string
+		for ph, v := range env {
+			ks = append(ks, fmt.Sprintf("%s=%v", ph.Name(), v))
+		}
+		sort.Strings(ks)
+		return strings.Join(ks, ",")
+	}
+	var rec func(p, b *ssa.BasicBlock, env map[*ssa.Phi]bool) bool
+	rec = func(p, b *ssa.BasicBlock, env map[*ssa.Phi]bool) bool {
+		if b == to {
+			return true
+		}
+		if b == stop {
+			return false
+		}
+		// update the flags merged in b for the edge p -> b
+		ne := map[*ssa.Phi]bool{}
+		for k, v := range env {
+			ne[k] = v
+		}
+		for _, in := range b.Instrs {
+			ph, ok := in.(*ssa.Phi)
+			if !ok {
+				break
+			}
+			delete(ne, ph)
+			for i, pp := range b.Preds {
+				if pp != p {
+					continue
+				}
+				e := ph.Edges[i]
+				if bv, ok := BoolConst(e); ok {
+					ne[ph] = bv
+				} else if ep, ok := e.(*ssa.Phi); ok {
+					if v, known := env[ep]; known {
+						ne[ph] = v
+					}
+				}
+			}
+		}
+		st := state{b, envKey(ne)}
+		if seen[st] {
+			return false
+		}
+		seen[st] = true
+		succs := b.Succs
+		if iff := BlockIf(b); iff != nil && len(b.Succs) == 2 {
+			v := iff.Cond
+			neg := false
+			for {
+				if u, ok := v.(*ssa.UnOp); ok && u.Op == token.NOT {
+					neg = !neg
+					v = u.X
+					continue
+				}
+				break
+			}
+			if ph, ok := v.(*ssa.Phi); ok {
+				if val, known := ne[ph]; known {
+					if val != neg {
+						succs = b.Succs[:1]
+					} else {
+						succs = b.Succs[1:2]
+					}
+				}
+			}
+		}
+		for _, s := range succs {
+			if rec(b, s, ne) {
+				return true
+			}
+		}
+		return false
+	}
+	return rec(pred, from, map[*ssa.Phi]bool{})
 }
